@@ -113,7 +113,11 @@ func genRealm(r *hcommon.RNG, uri string, ksNames []string) RealmCfg {
 }
 
 func genRoles(r *hcommon.RNG) (any, bool) {
-	switch r.Intn(20) {
+	if r.Chance(3, 5) {
+		role := hcommon.Pick(r, []string{"caller", "callee", "publisher", "subscriber"})
+		return map[string]any{role: map[string]any{}}, true
+	}
+	switch r.Intn(16) {
 	case 0:
 		return nil, false // absent
 	case 1:
@@ -191,6 +195,23 @@ func genSmuggle(r *hcommon.RNG, d map[string]any) {
 
 func genHello(r *hcommon.RNG, c *Case, realm string, bias []string) map[string]any {
 	d := map[string]any{}
+	if len(bias) > 0 && r.Chance(1, 2) {
+		// a mostly well-formed HELLO aimed at a configured method
+		role := hcommon.Pick(r, []string{"caller", "callee", "publisher", "subscriber"})
+		d["roles"] = map[string]any{role: map[string]any{}}
+		ms := []any{}
+		if r.Chance(1, 4) {
+			ms = append(ms, hcommon.Pick(r, methodPool))
+		}
+		ms = append(ms, hcommon.Pick(r, bias))
+		if r.Chance(1, 3) {
+			ms = append(ms, hcommon.Pick(r, bias))
+		}
+		d["authmethods"] = ms
+		d["authid"] = hcommon.Pick(r, []any{"alice", "alice", "bob", "bob", "carol", "dave", "erin", "frank", "mallory"})
+		genSmuggle(r, d)
+		return d
+	}
 	if v, ok := genRoles(r); ok {
 		d["roles"] = v
 	}
@@ -268,7 +289,7 @@ func genHS(r *hcommon.RNG, c *Case) HS {
 	}
 	realm := genRealmName(r, c)
 	bias := realmAuthKinds(c, realm)
-	switch r.Intn(16) {
+	switch r.Intn(32) {
 	case 0:
 		// silence
 		return hs
@@ -282,7 +303,11 @@ func genHS(r *hcommon.RNG, c *Case) HS {
 		hs.Arrivals = []Arrival{{D: 0, M: []any{"auth", map[string]any{"resp": "valid"}}}}
 		return hs
 	}
-	hs.Arrivals = []Arrival{{D: genDelay(r, 5000), M: []any{"hello", realm, genHello(r, c, realm, bias)}}}
+	helloDelay := 0
+	if r.Chance(1, 5) {
+		helloDelay = genDelay(r, 5000)
+	}
+	hs.Arrivals = []Arrival{{D: helloDelay, M: []any{"hello", realm, genHello(r, c, realm, bias)}}}
 	// what the client does after a CHALLENGE (or whatever else happens)
 	crT := hcommon.Pick(r, []int{60000, 60000, 1500, 90000})
 	switch r.Intn(12) {
@@ -409,6 +434,23 @@ func directedCases() []*Case {
 			HS{Rep: 5, Arrivals: []Arrival{hello([]any{m}, "alice", nil), {D: 60001, M: []any{"auth", map[string]any{"resp": "valid"}}}}}))
 		cs = append(cs, mk("intime-"+m, a, false,
 			HS{Rep: 5, Arrivals: []Arrival{hello([]any{m}, "alice", nil), {D: 59999, M: []any{"auth", map[string]any{"resp": "valid"}}}}}))
+	}
+	// every response kind against every challenge method, for a plain and for a salted user
+	for _, m := range []string{"ticket", "wampcra", "cryptosign"} {
+		a := []AuthCfg{{Kind: m, KS: "ks1"}}
+		for _, k := range []string{"prefix", "longer", "empty", "tampered", "garbage", "hexofb64", "short", "upper"} {
+			for _, who := range []string{"alice", "bob"} {
+				cs = append(cs, mk("resp-"+k+"-"+m+"-"+who, a, false,
+					HS{Rep: 20, Arrivals: []Arrival{hello([]any{m}, who, nil), auth(k)}}))
+			}
+		}
+		// users the key store knows only partly, or not at all
+		for _, who := range []string{"carol", "dave", "erin", "frank", "mallory"} {
+			for _, k := range []string{"valid", "empty"} {
+				cs = append(cs, mk("user-"+who+"-"+k+"-"+m, a, false,
+					HS{Rep: 21, Arrivals: []Arrival{hello([]any{m}, who, nil), auth(k)}}))
+			}
+		}
 	}
 	// local bypass with smuggled identity (the authid survives), and with RequireLocalAuth
 	cs = append(cs, mk("local-bypass-smuggle", nil, false,
